@@ -101,6 +101,45 @@ func checkC19(ctx *core.Ctx, rep *core.Report) {
 	// network queries of both families (a table that an earlier query rearranges answers correctly only in a fresh process)
 	c19PinnedPass(rep, "in a fresh process")
 	defer c19PinnedPass(rep, "after the address and network sweeps of this process")
+	// the address test is a function of the address: what it answers for the base address of every IPv4 network of prefix
+	// ≤ 8 and every /16 boundary of the special blocks BEFORE any network has been judged must be what it answers at the end
+	var probe []net.IP
+	for p := 1; p <= 8; p++ {
+		for b := 0; b < 1<<p; b++ {
+			probe = append(probe, ip4(uint32(b)<<(32-p)))
+		}
+	}
+	for _, b := range blocks {
+		if _, n, err := net.ParseCIDR(b); err == nil {
+			first := append(net.IP{}, n.IP...)
+			probe = append(probe, first)
+			for i := len(first) - 1; i >= 0 && i >= len(first)-2; i-- { // the enclosing /16- and /24-ish bases
+				c := append(net.IP{}, first...)
+				for j := i; j < len(c); j++ {
+					c[j] = 0
+				}
+				probe = append(probe, c)
+			}
+		}
+	}
+	firstAnswer := make([]bool, len(probe))
+	for i, a := range probe {
+		firstAnswer[i] = util.IsIANAReserved(a)
+	}
+	defer func() {
+		for i, a := range probe {
+			rep.Inc("validated")
+			if got := util.IsIANAReserved(a); got != firstAnswer[i] {
+				rep.Violate("C19|address_test_history_dependent", fmt.Sprintf("IsIANAReserved(%s) answered %v in the fresh process and %v after the network sweeps of the same process", a, firstAnswer[i], got),
+					map[string]interface{}{"op": "IsIANAReserved_history", "ip": a.String()})
+			}
+			bits := 8 * len(a)
+			if got := util.IntersectsIANAReserved(net.IPNet{IP: a, Mask: net.CIDRMask(bits, bits)}); got != firstAnswer[i] {
+				rep.Violate("C19|single_address_network_differs", fmt.Sprintf("the single-address network of %s intersects=%v at the end of the process, the address test said %v in the fresh process", a, got, firstAnswer[i]),
+					map[string]interface{}{"op": "Intersects_history", "ip": a.String()})
+			}
+		}
+	}()
 
 	// ---- IPv4: exact bitmap per /8 ---------------------------------------------
 	// literal boundaries with prefix > 24 mark their /24 as "scan all 256"
